@@ -294,7 +294,7 @@ def check(prog, rep, tier):
         if not dec:
             continue
         seen = True
-        z = [c for c in p.conds if c.atom[0] == "cmp" and c.atom[1] in ("==", "!=") and c.atom[3] == C(0) and
+        z = [c for c in p.conds if c.atom[0] == "cmp" and c.atom[1] in ("==", "!=", ">", "<=") and c.atom[3] == C(0) and
              (any(n[0] == "f" and n[2] == BINF for n in walk(c.atom[2]))
               or (strip_epochs(c.atom[2])[0] == "ret" and strip_epochs(c.atom[2])[1].endswith("CountingCuckooBin.decrement"))
               or (strip_epochs(c.atom[2])[0] == "call" and strip_epochs(c.atom[2])[1][0] == "m" and strip_epochs(c.atom[2])[1][2] == "decrement"))]  # decrement() returns the new count
@@ -303,7 +303,7 @@ def check(prog, rep, tier):
             rep.bad("C15.no-zero-bin", f"{ctx}.remove", "no zero test after decrement", "after decrementing a bin its count is not tested against zero", rm.where())
             okr = False
             break
-        zero = (z[0].atom[1] == "==") == z[0].truth
+        zero = (z[0].atom[1] in ("==", "<=")) == z[0].truth  # counts are never negative: > 0 is != 0
         if zero != bool(rem):
             rep.bad("C15.no-zero-bin", f"{ctx}.remove", f"count==0 is {zero}, bin removed is {bool(rem)}",
                     "a bin whose count reached zero stays in its bucket (or a non-empty bin is dropped)", rm.where())
